@@ -129,7 +129,7 @@ def shape_case(chk, kind, a, b, r):
     return True
 
 
-def pass_case(chk, rng):
+def pass_case(chk, rng, i=0):
     from pyroll.core import Profile, RollPass, Roll, CircularOvalGroove
     r = 10 + rng.random() * 10
     ip = Profile.round(radius=r * 1e-3, temperature=1200 + 273.15, strain=0, material="C45", flow_stress=100e6, length=1)
@@ -137,16 +137,37 @@ def pass_case(chk, rng):
                                           nominal_radius=160e-3, rotational_frequency=1),
                   gap=(2 + rng.random() * 2) * 1e-3)
     ok = True
+    # every solved pass: also one whose equivalent rectangles come from a plugin model (here: the bounding box of the section, on the entry
+    # side, the exit side or both) - the coefficients stay mutually consistent whatever the rectangles are
+    from pyroll.core.shapes import rectangle
+    plug = [None, 'in', 'out', 'both'][i % 4]
+    hfs = []
+    box = lambda self: rectangle(self.width, self.height)       # noqa
+    if plug in ('in', 'both'):
+        hfs.append(RollPass.InProfile.equivalent_rectangle(box))
+    if plug in ('out', 'both'):
+        hfs.append(RollPass.OutProfile.equivalent_rectangle(box))
+    try:
+        return _pass_history(chk, rng, rp, ip, r, plug)
+    finally:
+        for hf in hfs:
+            hf.hook.remove_function(hf)
+
+
+def _pass_history(chk, rng, rp, ip, r, plug):
+    ok = True
     # histories: the same pass object solved, its gap edited, solved again (twice)
     for step, factor in enumerate((1.0, 0.7, 1.4)):
         rp.gap = float(rp.gap) * factor
         rp.solve(ip)
         d, s, e = rp.draught, rp.spread, rp.elongation
-        data = {'kind': 'pass', 'r': r, 'history': f"solve number {step + 1} of the same pass object (gap {float(rp.gap):.6g})"}
+        data = {'kind': 'pass', 'r': r, 'history': f"solve number {step + 1} of the same pass object (gap {float(rp.gap):.6g})"
+                + (f", equivalent rectangle of the {plug} profile(s) supplied by a plugin" if plug else "")}
         ri, ro = rp.in_profile.equivalent_rectangle, rp.out_profile.equivalent_rectangle
         ok = close(rp.log_draught, math.log(d)) and close(rp.log_spread, math.log(s)) and close(rp.log_elongation, math.log(e))
         ok = ok and close(rp.rel_draught, d - 1) and close(rp.rel_spread, s - 1)
-        ok = ok and close(rp.abs_draught, ro.height - ri.height)
+        ok = ok and close(rp.abs_draught, ro.height - ri.height) and close(rp.abs_spread, ro.width - ri.width)
+        ok = ok and close(rp.rel_draught, rp.abs_draught / ri.height) and close(rp.rel_spread, rp.abs_spread / ri.width)
         ok = ok and close(d, ro.height / ri.height) and close(s, ro.width / ri.width)
         ok = ok and close(e, rp.in_profile.cross_section.area / rp.out_profile.cross_section.area, 1e-6)
         ok = ok and close(rp.strain, math.sqrt(2 / 3 * (rp.log_elongation ** 2 + rp.log_spread ** 2 + rp.log_draught ** 2)))
@@ -193,10 +214,10 @@ def oracle(chk, n):
             chk.sample({'shape': kind, 'a': a, 'b': b, 'corner_ratio': r})
         if not shape_case(chk, kind, a, b, r):
             break
-    for i in range(2 if not chk.thorough else 8):
+    for i in range(4 if not chk.thorough else 12):
         ev += 1
         seen.add(('p', i))
-        pass_case(chk, rng)
+        pass_case(chk, rng, i)
     chk.cov['evaluations'] += ev
     chk.cov['distinct_nontrivial'] += len(seen)
 
